@@ -354,6 +354,28 @@ class FnTir:
             if has_writes(body):
                 items.append(("loop", body, info))
             return ("seq", items)
+        # a local closure called directly (`let write_bound = |b| {..}; write_bound(lo)`): its body runs here.  Closures that
+        # are only handed to another renderer stay as they are (the closure-arg blocks below).
+        if k == "call" and "fn_expr" in e:
+            fe = H.peel_ref(e["fn_expr"])
+            if isinstance(fe, dict) and fe.get("k") == "local" and fe.get("name") in self.env_closures and getattr(self, "_inl", 0) < 3:
+                c = self.env_closures[fe["name"]]
+                self._inl = getattr(self, "_inl", 0) + 1
+                items = [self.W(a) for a in args]
+                saved = dict(self.sinks)
+                renames = []
+                for cp, a in zip(c.get("params") or [], args):
+                    sk = self.sink_of(a)
+                    if sk is not None and cp["pat"].get("k") == "bind":
+                        self.sinks[cp["pat"]["name"]] = self.sinks.get(sk, "writer")
+                        renames.append((cp["pat"]["name"], sk))
+                body = self.W(c["body"])
+                for old_, new_ in renames:
+                    body = rename_sink(body, old_, new_)
+                self.sinks = saved
+                self._inl -= 1
+                items.append(body)
+                return ("seq", items)
         # a call that is handed a sink: another renderer writes into it
         all_args = ([recv] if recv is not None else []) + args
         sink_args = [(i, self.sink_of(a)) for i, a in enumerate(all_args)]
@@ -767,3 +789,70 @@ def expand_paths(S, limit=4096):
     if k in ("ctl", "diverge"):
         return [([], [S])]
     return [([], [S])]
+
+
+def inline_calls(f, S, depth=2):
+    """replace calls to crate functions that are handed the sink by what those functions write (parameter names of the
+    callee are replaced by the caller's argument text in loop headers and hole descriptions)"""
+    if depth <= 0:
+        return S
+    k = S[0]
+    if k == "seq":
+        return ("seq", [inline_calls(f, x, depth) for x in S[1]])
+    if k == "alt":
+        return ("alt", [(g, inline_calls(f, x, depth)) for g, x in S[1]])
+    if k in ("loop", "star", "star1"):
+        return (k, inline_calls(f, S[1], depth)) + tuple(S[2:])
+    if k == "sepby":
+        return ("sepby", inline_calls(f, S[1], depth), inline_calls(f, S[2], depth)) + tuple(S[3:])
+    if k == "call":
+        info = S[2]
+        target = info.get("resolved") if info.get("resolved") not in (None, "=") else S[1]
+        if target in f.fns and f.fns[target].get("hir") is not None:
+            try:
+                t = fn_tir(f, target)
+            except Exception:
+                return S
+            idx = info.get("sink_index")
+            if idx is not None and idx < len(t.params) and t.params[idx][0] in t.sinks:
+                body = expand_bufs(t, project(t.effects, t.params[idx][0]))
+                ren = {}
+                for i, a in enumerate(info.get("args") or []):
+                    if i < len(t.params) and t.params[i][0]:
+                        ren[t.params[i][0]] = a.lstrip("&")
+                return inline_calls(f, _rename_params(body, ren), depth - 1)
+    return S
+
+
+def _rename_params(S, ren):
+    k = S[0]
+    if k == "seq":
+        return ("seq", [_rename_params(x, ren) for x in S[1]])
+    if k == "alt":
+        return ("alt", [(g, _rename_params(x, ren)) for g, x in S[1]])
+    if k in ("loop", "star", "star1"):
+        info = S[2] if len(S) > 2 and isinstance(S[2], dict) else None
+        if info is not None and (info.get("over") or "") in ren:
+            info = dict(info, over=ren[info["over"]])
+        return (k, _rename_params(S[1], ren)) + ((info,) if info is not None else tuple(S[2:])) + tuple(S[3:])
+    if k == "sepby":
+        return ("sepby", _rename_params(S[1], ren), _rename_params(S[2], ren)) + tuple(S[3:])
+    if k == "hole" and isinstance(S[2], dict) and (S[2].get("what") or "") in ren:
+        return ("hole", S[1], dict(S[2], what=ren[S[2]["what"]]), S[3] if len(S) > 3 else None)
+    return S
+
+
+def expand_bufs(t, S, seen=()):
+    """replace the use of a local string buffer by what the function writes into that buffer"""
+    k = S[0]
+    if k == "seq":
+        return ("seq", [expand_bufs(t, x, seen) for x in S[1]])
+    if k == "alt":
+        return ("alt", [(g, expand_bufs(t, x, seen)) for g, x in S[1]])
+    if k in ("loop", "star", "star1"):
+        return (k, expand_bufs(t, S[1], seen)) + tuple(S[2:])
+    if k == "sepby":
+        return ("sepby", expand_bufs(t, S[1], seen), expand_bufs(t, S[2], seen)) + tuple(S[3:])
+    if k == "buf" and S[1] in t.sinks and t.sinks[S[1]] == "buffer" and S[1] not in seen:
+        return expand_bufs(t, project(t.effects, S[1]), seen + (S[1],))
+    return S
